@@ -25,6 +25,11 @@ CHECKS = {
         technique="bounded exhaustive enumeration of inputs (all token strings up to length L, all 1-2 edit neighbours and all prefixes of seed documents) executed on the real loader",
         text="Every byte string composed of <= 4 (thorough 5) tokens of a 40-token XML alphabet, every prefix and every single (thorough: every pair of) token/byte edit of 12 seed documents and a nesting ladder are loaded strictly, leniently and probed with check_buffer; panics, aborts, hangs, out-of-range error lines and check_buffer/load disagreement are violations. Exhaustive inside these bounds, silent outside them.",
         note="Trusted: catch_unwind reports every panic; a stack overflow is only observed in the child-process ladder. Inputs longer than the bound that are not within 2 edits of a seed are not covered."),
+    "C07": dict(
+        engine="specwalk", category="model_checking", design="DESIGN.md section 5, C07",
+        technique="explicit-state exploration per content model: every datatype x version, every content state reachable by <= 2-3 creations, every candidate sub-element at every position (create-at, copy-at, move-at), every value/attribute candidate; each step executed through the real editing API and compared with the harness's own order checker and table-driven validator, then serialized and reloaded leniently",
+        text="For every distinct content model (datatype) of 4 (thorough: 21) versions: list_valid_sub_elements equals the specification listing and its is_named / is_allowed flags are right in every explored state; create_at(p) succeeds <=> p is in calc_element_insert_range <=> inserting at p keeps the harness's specification order, and the range is exactly the set of valid positions; auto-positioned creation fails only if no position is valid; copy-at/move-at from a second model obey the same rule; set_character_data / set_attribute / set_attribute_string accept a value <=> it is permitted for the spec in the file's version (all enum items, pattern members and non-members, length boundaries, wrong kinds, unlisted and version-foreign attributes); after every successful step the file is serialized and loaded leniently: same content, no warning other than RequiredAttributeMissing, and the harness validator finds nothing else.",
+        note="Trusted: harness order checker valid_children (pairwise reading of the group structure) and specvalid. Content states deeper than the creation bound and parents with more than 60 candidate sub-elements (reduced to 3 prior children x 40 candidates) are not covered completely."),
     "C08": dict(
         engine="specwalk", category="model_checking", design="DESIGN.md section 5, C08",
         technique="exhaustive walk of the specification graph: for every reachable (element type, sub-element) edge per version a minimal document with each applicable defect (and each pair of defects) injected; every document run through strict and lenient loading and judged by the harness's own table-driven validator",
